@@ -105,7 +105,7 @@ def _prefill(inp, fs, n, base, commit_meta):
     return ents
 
 
-@obligation('JR3', props=('C06', 'C09'), quick=[dict(n=3), dict(n=4)], thorough=[dict(n=3), dict(n=4), dict(n=5), dict(n=6)], stubs=_STUBS,
+@obligation('JR3', props=('C06', 'C09'), quick=[dict(n=1), dict(n=2), dict(n=3), dict(n=4)], thorough=[dict(n=1), dict(n=2), dict(n=3), dict(n=4), dict(n=5), dict(n=6)], stubs=_STUBS,
             bounds='journal of n<=6 entries starting at index 1..3, dump taken at any journal position (or below / above the journal), symbolic terms; the dump agrees or disagrees with the journal head')
 def JR3(inp, n):
     """start-up reconciliation (journal + dump): after the first-tick load no journaled entry above the dump position is lost,
@@ -118,7 +118,8 @@ def JR3(inp, n):
     cm = inp.int('meta_commit', 1, last)
     ents = _prefill(inp, fs, n, base, cm)
     # the dump: entries (d-1, d); taken from this very journal (agrees) or from a compaction the journal head predates
-    d = inp.choice('dump_at', n - 1) + base + 1      # base+1 .. last: the dump is never older than the journal head (the trim follows the dump)
+    d = inp.choice('dump_at', n) + base + 1          # base+1 .. last+1: never older than the journal head (the trim follows the dump); last+1 = the journal
+                                                     # holds only the dump's first entry (kill between the two appends of a journal reset)
     dt0, dt1 = inp.int('dt0', 0, T_HI), inp.int('dt1', 0, T_HI)
     inp.assume(dt0 <= dt1)
     agree = []
